@@ -1,16 +1,16 @@
 CONSTANTS
   Server = {1, 2, 3}
-  MaxTerm = 2
-  MaxProposals = 1
-  MaxCrashes = 1
-  MaxDrops = 1
+  MaxTerm = 4
+  MaxProposals = 0
+  MaxCrashes = 0
+  MaxDrops = 0
   MaxDups = 0
   MaxHeartbeats = 0
   MaxLog = 3
-  MaxNet = 4
-  MaxEnts = 0
+  MaxNet = 8
+  MaxEnts = 1
   SimDepth = 0
-  W_CommitAnyTerm = FALSE
+  W_CommitAnyTerm = TRUE
   W_VoteIgnoreVoted = FALSE
   W_VoteIgnoreLog = FALSE
   W_NoPersistVote = FALSE
@@ -21,5 +21,4 @@ INIT Init
 NEXT Next
 CONSTRAINT NetBound
 VIEW view
-INVARIANTS ElectionSafety LogMatching StateMachineSafety LeaderCompleteness CommitWithinLog PersistedMatchesVolatile
-PROPERTY HardStateMonotonic
+INVARIANT EmitAttack
